@@ -138,6 +138,16 @@ func undecodable(kind string) []byte {
 			{Tag: 0x420045, Type: ttlvref.Structure, Kids: []*ttlvref.Node{material}}}}
 	}
 	switch kind {
+	case "oversize-with-body":
+		// a header announcing more than the server's 1 MiB limit, with the announced body really sent: the body consists of
+		// well-formed requests (which must not be executed), and more of them follow
+		smuggled := c08Request(9000, []string{"ok"})
+		total := 1<<20 + 4096
+		b := []byte{0x42, 0x00, 0x78, 0x01, byte(total >> 24), byte(total >> 16), byte(total >> 8), byte(total)}
+		for len(b) < total+8+2*len(smuggled) {
+			b = append(b, smuggled...)
+		}
+		return b
 	case "unknown-object-type": // Register with an object type the library has no struct for
 		return msg(hdr, item(3, pl(&ttlvref.Node{Tag: 0x420057, Type: ttlvref.Enumeration, I: 0x7F}, &ttlvref.Node{Tag: 0x420091, Type: ttlvref.Structure},
 			&ttlvref.Node{Tag: 0x42008F, Type: ttlvref.Structure})))
@@ -171,7 +181,7 @@ func undecodable(kind string) []byte {
 }
 
 var undecodableKinds = []string{"unknown-object-type", "unsupported-key-format", "bad-credential-type", "wrong-top-level-tag", "wrong-field-type",
-	"inner-length-overrun", "import-without-object-type", "negative-for-unsigned", "missing-payload"}
+	"inner-length-overrun", "import-without-object-type", "negative-for-unsigned", "missing-payload", "oversize-with-body"}
 
 // ---------------------------------------------------------------------------
 // Client side of one connection
